@@ -199,6 +199,14 @@ def handle (w : W) (line : String) : W × String :=
       | some a => unitOp (.alias a (parseOptStr name) (parseOptStr sym)) | _ => bad
   | ["U", "resolve", text] => unitOp (.resolve text)
   | ["U", "named", name] => unitOp (.named name)
+  | ["X", "ptree", which, start, text] =>
+      -- C16: the plain parse tree from the shipped or the freshly generated tables
+      (match parseArgX w text, which, start with
+       | some (.str t), "shipped", "unit" => (w, showTree (parseTree Generated.shipped.grammar Generated.shipped.grammar.startUnit Generated.shipped.grammar.endUnit t))
+       | some (.str t), "shipped", "quantity" => (w, showTree (parseTree Generated.shipped.grammar Generated.shipped.grammar.startQty Generated.shipped.grammar.endQty t))
+       | some (.str t), "fresh", "unit" => (w, showTree (parseTree Generated.fresh.grammar Generated.fresh.grammar.startUnit Generated.fresh.grammar.endUnit t))
+       | some (.str t), "fresh", "quantity" => (w, showTree (parseTree Generated.fresh.grammar Generated.fresh.grammar.startQty Generated.fresh.grammar.endQty t))
+       | _, _, _ => bad)
   | "X" :: op :: args =>
       -- extended operations on the whole world (quantities, conversions, text, …)
       match args.mapM (parseArgX w) with
@@ -211,8 +219,19 @@ def handle (w : W) (line : String) : W × String :=
 where
   parseArgX (w : W) (t : String) : Option (Arg Float) :=
     if t.startsWith "s:" then some (.str (t.drop 2).toString)
+    else if t.startsWith "h:" then
+      (((t.drop 2).toString.splitOn ".").filter (· ≠ "")).mapM (fun x => (hexNat x).map Char.ofNat)
+        |>.map (fun cs => .str (String.ofList cs))
     else if t.startsWith "n:" then ((t.drop 2).toString.toInt?).map .int
     else parseArg w t
+  showTree : Except Exc Tree → String
+    | .ok t => "ok\ts\t" ++ t.show
+    | .error e => "ERR\t" ++ e.name
+  hexNat (x : String) : Option Nat :=
+    x.toList.foldlM (fun acc c =>
+      if '0' ≤ c && c ≤ '9' then some (acc * 16 + (c.toNat - 48))
+      else if 'a' ≤ c && c ≤ 'f' then some (acc * 16 + (c.toNat - 87))
+      else none) 0
   showGraph (w : W) : String :=
     "\n".intercalate ((isort (fun a b => decide (a.1 ≤ b.1)) (w.ratios.filter (fun r => !r.2.isEmpty))).map (fun r => s!"{r.1}>" ++ ",".intercalate (r.2.map (fun c => toString c.1))))
 
